@@ -33,7 +33,7 @@ func init() {
 }
 
 func init() {
-	props["C15"] = []Stream{{"name-build", genNameBuild}, {"name-order", genNameOrder}, {"name-parse", genNameParse}, {"name-sanitize", genSanitize}, {"cleaner-foreign", genCleanerForeign}}
+	props["C15"] = []Stream{{"name-build", genNameBuild}, {"name-order", genNameOrder}, {"name-parse", genNameParse}, {"name-sanitize", genSanitize}, {"cleaner-foreign", genCleanerForeign}, {"recv", genRecv}}
 }
 
 func init() {
